@@ -171,3 +171,28 @@ func Printed(out, tag string) []string {
 	}
 	return res
 }
+
+// Apalache runs apalache-mc check on a module of specDir and reports whether the outcome is NoError.
+func Apalache(specDir, module string, timeout time.Duration, args ...string) (bool, string) {
+	dir := Scratch("apa")
+	defer os.RemoveAll(dir)
+	ents, _ := os.ReadDir(specDir)
+	for _, e := range ents {
+		if b, err := os.ReadFile(filepath.Join(specDir, e.Name())); err == nil {
+			os.WriteFile(filepath.Join(dir, e.Name()), b, 0o644)
+		}
+	}
+	ctx, cancel := context.WithTimeout(context.Background(), timeout)
+	defer cancel()
+	full := append([]string{"check", "--out-dir=" + filepath.Join(dir, "out")}, args...)
+	full = append(full, module+".tla")
+	cmd := exec.CommandContext(ctx, "apalache-mc", full...)
+	cmd.Dir = dir
+	cmd.SysProcAttr = &syscall.SysProcAttr{Setpgid: true, Pdeathsig: syscall.SIGKILL}
+	cmd.Cancel = func() error { return syscall.Kill(-cmd.Process.Pid, syscall.SIGKILL) }
+	var buf bytes.Buffer
+	cmd.Stdout, cmd.Stderr = &buf, &buf
+	cmd.Run()
+	out := buf.String()
+	return strings.Contains(out, "The outcome is: NoError"), out
+}
